@@ -393,14 +393,19 @@ def decide(prop, tier, seed, jobs, meta, extra_results=None):
         exit_code = 1
         os.makedirs(REPLAY, exist_ok=True)
         replay_path = os.path.join(REPLAY, '%s_%s_kani.json' % (prop, time.strftime('%Y%m%d_%H%M%S')))
+        replayed = [k for k in kani_fail if (k.get('counterexample') or {}).get('fails_natively')]
         with open(replay_path, 'w') as fh:
-            json.dump({'property': prop, 'note': 'bounded Kani harness failed on the real code (scratch copy of the current tree); '
-                       'the failed CBMC checks are listed; re-run: see cmd. no-failing-input-found (concrete playback not extracted)',
+            json.dump({'property': prop, 'note': 'bounded Kani harness failed on the real code (scratch copy of the current tree). '
+                       + ('The counterexample found by CBMC was inserted as a concrete playback test and executed NATIVELY against the real code: it fails there too (see counterexample).'
+                          if replayed else 'no-failing-input-found (no concrete playback available for this failure)'),
                        'failed_obligations': [{'obligation': 'kani::' + k['harness'], 'configuration': 'kani', 'N': '-',
                                                'failed_clause': '; '.join(k['failed_checks']), 'repo_location': k['what'],
+                                               'counterexample': k.get('counterexample'),
                                                'verifier_output': k['output_tail'], 'checker_cmd': k['cmd']} for k in kani_fail]}, fh, indent=1)
-        lines.append('VIOLATION property=%s replay=%s obligation=kani::%s (bounded: %s) no-failing-input-found'
-                     % (prop, replay_path, kani_fail[0]['harness'], kani_fail[0]['bound']))
+        first = (replayed or kani_fail)[0]
+        lines.append('VIOLATION property=%s replay=%s obligation=kani::%s (bounded: %s) %s'
+                     % (prop, replay_path, first['harness'], first['bound'].replace(' ', '_'),
+                        'counterexample-replayed-on-real-code' if replayed else 'no-failing-input-found'))
     if violations:
         exit_code = 1
         os.makedirs(REPLAY, exist_ok=True)
@@ -426,6 +431,7 @@ def decide(prop, tier, seed, jobs, meta, extra_results=None):
         for k in kani_fail:
             payload['failed_obligations'].append({'obligation': 'kani::' + k['harness'], 'configuration': 'kani', 'N': '-',
                                                   'failed_clause': '; '.join(k['failed_checks']), 'repo_location': k['what'],
+                                                  'counterexample': k.get('counterexample'),
                                                   'verifier_output': k['output_tail'], 'checker_cmd': k['cmd']})
         with open(replay_path, 'w') as fh:
             json.dump(payload, fh, indent=1)
